@@ -5,7 +5,15 @@ namespace SaVerif.Txn
 /-- every DBAPI connection idle in the pool has no transaction in progress (so it will see
     exactly the committed rows when handed out), no savepoints, default isolation level -/
 def PoolClean (db : DB) : Prop :=
-  ∀ r, some r ∈ db.idle → r.follows = true ∧ r.saves = [] ∧ r.autocommit = false
+  ∀ r, some r ∈ db.idle → r.follows = true ∧ r.saves = [] ∧ r.autocommit = false ∧
+    r.readUnc = false ∧ r.finalize = []
+
+/-- a non-default isolation level on the held DBAPI connection is always accompanied by a
+    queued reset callback that covers the isolation level -/
+def IsoOk (r : Raw) : Prop :=
+  (r.autocommit = true ∨ r.readUnc = true) → r.finalize.any id = true
+
+def HeldIso (db : DB) : Prop := IsoOk db.raw
 
 /-- the connection's `_transaction` is a RootTransaction object -/
 def RootPtr (c : Conn) : Prop := ∀ t, c.transaction = some t → (c.txn t).isRoot = true
@@ -14,53 +22,71 @@ def RootPtr (c : Conn) : Prop := ∀ t, c.transaction = some t → (c.txn t).isR
 structure Shrinks (db db' : DB) : Prop where
   reset : db'.reset = db.reset
   idle : ∀ r, some r ∈ db'.idle → some r ∈ db.idle
-
-theorem Shrinks.refl (db : DB) : Shrinks db db := ⟨rfl, fun _ h => h⟩
-theorem Shrinks.trans {a b c : DB} (h1 : Shrinks a b) (h2 : Shrinks b c) : Shrinks a c :=
-  ⟨h2.reset.trans h1.reset, fun r h => h1.idle r (h2.idle r h)⟩
+  held : PoolClean db → HeldIso db → HeldIso db'
 
 theorem Shrinks.clean {db db' : DB} (h : Shrinks db db') (hc : PoolClean db) : PoolClean db' :=
   fun r hr => hc r (h.idle r hr)
 
-/-- same idle queue and reset style -/
-theorem shrinks_of_eq {db db' : DB} (h1 : db'.reset = db.reset) (h2 : db'.idle = db.idle) :
-    Shrinks db db' := ⟨h1, fun r h => by rw [h2] at h; exact h⟩
+theorem Shrinks.refl (db : DB) : Shrinks db db := ⟨rfl, fun _ h => h, fun _ h => h⟩
+theorem Shrinks.trans {a b c : DB} (h1 : Shrinks a b) (h2 : Shrinks b c) : Shrinks a c :=
+  ⟨h2.reset.trans h1.reset, fun r h => h1.idle r (h2.idle r h),
+   fun hc hi => h2.held (h1.clean hc) (h1.held hc hi)⟩
+
+/-- same idle queue, reset style and isolation state of the held connection -/
+theorem shrinks_of_eq {db db' : DB} (h1 : db'.reset = db.reset) (h2 : db'.idle = db.idle)
+    (h3 : db'.raw.autocommit = db.raw.autocommit) (h4 : db'.raw.readUnc = db.raw.readUnc)
+    (h5 : db'.raw.finalize = db.raw.finalize) :
+    Shrinks db db' :=
+  ⟨h1, fun r h => by rw [h2] at h; exact h, fun _ hi => by unfold HeldIso IsoOk; rw [h3, h4, h5]; exact hi⟩
+
+theorem heldIso_clean {db : DB} (h1 : db.raw.autocommit = false) (h2 : db.raw.readUnc = false) :
+    HeldIso db := by
+  intro h; rcases h with h | h
+  · rw [h1] at h; cases h
+  · rw [h2] at h; cases h
 
 theorem takeFault_shrinks (db : DB) (p : FPoint) : Shrinks db (db.takeFault p).2 := by
   unfold DB.takeFault
-  split <;> exact shrinks_of_eq rfl rfl
+  split <;> exact shrinks_of_eq rfl rfl rfl rfl rfl
 
-theorem commit_shrinks (db : DB) : Shrinks db db.commit := shrinks_of_eq rfl rfl
-theorem rollback_shrinks (db : DB) : Shrinks db db.rollback := shrinks_of_eq rfl rfl
+theorem commit_shrinks (db : DB) : Shrinks db db.commit := shrinks_of_eq rfl rfl rfl rfl rfl
+theorem rollback_shrinks (db : DB) : Shrinks db db.rollback := shrinks_of_eq rfl rfl rfl rfl rfl
 theorem write_shrinks (db : DB) (d : Data) : Shrinks db (db.write d) := by
-  unfold DB.write; split <;> exact shrinks_of_eq rfl rfl
+  unfold DB.write; split <;> exact shrinks_of_eq rfl rfl rfl rfl rfl
 
 theorem kill_shrinks (db : DB) : Shrinks db db.kill :=
   ⟨rfl, fun r h => by
     have h' : some r ∈ db.idle ++ [none] := h
     rcases List.mem_append.1 h' with h' | h'
     · exact h'
-    · simp at h'⟩
+    · simp at h', fun _ _ => heldIso_clean rfl rfl⟩
 
-theorem newRaw_shrinks (db : DB) : Shrinks db db.newRaw := shrinks_of_eq rfl rfl
+theorem newRaw_shrinks (db : DB) : Shrinks db db.newRaw :=
+  ⟨rfl, fun _ h => h, fun _ _ => heldIso_clean rfl rfl⟩
 
 theorem poolInvalidate_shrinks (db : DB) : Shrinks db db.poolInvalidate := by
   unfold DB.poolInvalidate
-  split <;> exact shrinks_of_eq rfl rfl
+  split <;> exact shrinks_of_eq rfl rfl rfl rfl rfl
 
 theorem checkout_shrinks (db : DB) : Shrinks db db.checkout := by
   unfold DB.checkout
   split
   · exact newRaw_shrinks db
   · rename_i rest he
-    exact ⟨rfl, fun r h => by rw [he]; exact List.mem_cons_of_mem _ h⟩
+    exact ⟨rfl, fun r h => by rw [he]; exact List.mem_cons_of_mem _ h,
+      fun _ _ => heldIso_clean rfl rfl⟩
   · rename_i r rest he
     have hsub : ∀ x, some x ∈ rest → some x ∈ db.idle := fun x h => by
       rw [he]; exact List.mem_cons_of_mem _ h
+    have hclean : PoolClean db → r.autocommit = false ∧ r.readUnc = false := fun hc => by
+      have := hc r (by rw [he]; exact List.mem_cons_self)
+      exact ⟨this.2.2.1, this.2.2.2.1⟩
     simp only []
     split
-    · exact ⟨rfl, hsub⟩
-    · split <;> exact ⟨rfl, hsub⟩
+    · exact ⟨rfl, hsub, fun _ _ => heldIso_clean rfl rfl⟩
+    · split
+      · exact ⟨rfl, hsub, fun hc _ => heldIso_clean (hclean hc).1 (hclean hc).2⟩
+      · exact ⟨rfl, hsub, fun hc _ => heldIso_clean (hclean hc).1 (hclean hc).2⟩
 
 theorem apply_shrinks (db : DB) (q : Sql) (db' : DB) (r : Res) (h : db.apply q = (some db', r)) :
     Shrinks db db' := by
@@ -71,12 +97,22 @@ theorem apply_shrinks (db : DB) (q : Sql) (db' : DB) (r : Res) (h : db.apply q =
     · simp at h
   · simp only [Prod.mk.injEq, Option.some.injEq] at h; rw [← h.1]; exact write_shrinks _ _
   · simp only [Prod.mk.injEq, Option.some.injEq] at h; rw [← h.1]; exact Shrinks.refl _
-  · simp only [Prod.mk.injEq, Option.some.injEq] at h; rw [← h.1]; exact shrinks_of_eq rfl rfl
+  · simp only [Prod.mk.injEq, Option.some.injEq] at h; rw [← h.1]; exact shrinks_of_eq rfl rfl rfl rfl rfl
   · split at h
-    · simp only [Prod.mk.injEq, Option.some.injEq] at h; rw [← h.1]; exact shrinks_of_eq rfl rfl
+    · rename_i r' hr
+      simp only [Prod.mk.injEq, Option.some.injEq] at h; rw [← h.1]
+      unfold Raw.rollbackTo at hr
+      split at hr
+      · simp only [Option.some.injEq] at hr; rw [← hr]; exact shrinks_of_eq rfl rfl rfl rfl rfl
+      · simp at hr
     · simp at h
   · split at h
-    · simp only [Prod.mk.injEq, Option.some.injEq] at h; rw [← h.1]; exact shrinks_of_eq rfl rfl
+    · rename_i r' hr
+      simp only [Prod.mk.injEq, Option.some.injEq] at h; rw [← h.1]
+      unfold Raw.release at hr
+      split at hr
+      · simp only [Option.some.injEq] at hr; rw [← hr]; exact shrinks_of_eq rfl rfl rfl rfl rfl
+      · simp at hr
     · simp at h
 
 /-! ### what returning a connection does to the pool -/
@@ -85,7 +121,8 @@ theorem apply_shrinks (db : DB) (q : Sql) (db' : DB) (r : Res) (h : db.apply q =
 def HeldClean (db : DB) : Prop := db.raw.working = db.committed ∧ db.raw.saves = []
 
 theorem poolClean_snoc {db : DB} {r : Raw} {idle : List (Option Raw)} (hc : PoolClean db)
-    (hi : idle = db.idle ++ [some r]) (hr : r.follows = true ∧ r.saves = [] ∧ r.autocommit = false)
+    (hi : idle = db.idle ++ [some r])
+    (hr : r.follows = true ∧ r.saves = [] ∧ r.autocommit = false ∧ r.readUnc = false ∧ r.finalize = [])
     (db' : DB) (hd : db'.idle = idle) : PoolClean db' := by
   intro x hx
   rw [hd, hi] at hx
@@ -94,10 +131,26 @@ theorem poolClean_snoc {db : DB} {r : Raw} {idle : List (Option Raw)} (hc : Pool
   · simp only [List.mem_singleton, Option.some.injEq] at hx
     subst hx; exact hr
 
+/-- the record put back by `checkin` once the transaction state is clean -/
+theorem returned_clean (db : DB) (hw : db.raw.working = db.committed) (hs : db.raw.saves = [])
+    (hi : HeldIso db) :
+    let iso := db.raw.finalize.any id
+    let r : Raw := { db.raw with autocommit := db.raw.autocommit && !iso, readUnc := db.raw.readUnc && !iso,
+                                 finalize := [],
+                                 follows := decide (db.raw.working = db.committed) && db.raw.saves.isEmpty }
+    r.follows = true ∧ r.saves = [] ∧ r.autocommit = false ∧ r.readUnc = false ∧ r.finalize = [] := by
+  refine ⟨by simp [hw, hs], hs, ?_, ?_, rfl⟩
+  · cases ha : db.raw.autocommit with
+    | false => rfl
+    | true => simp [hi (Or.inl ha)]
+  · cases hu : db.raw.readUnc with
+    | false => rfl
+    | true => simp [hi (Or.inr hu)]
+
 /-- reset-on-return (rollback or commit) always leaves the pool clean … -/
 theorem checkin_clean_reset (db : DB) (b : Bool) (hrs : db.reset ≠ .none)
-    (hb : b = true → HeldClean db) (hc : PoolClean db) :
-    PoolClean (db.checkin b) ∧ (db.checkin b).reset = db.reset := by
+    (hb : b = true → HeldClean db) (hc : PoolClean db) (hi : HeldIso db) :
+    PoolClean (db.checkin b) ∧ (db.checkin b).reset = db.reset ∧ HeldIso (db.checkin b) := by
   unfold DB.checkin
   cases hr : db.reset with
   | none => exact absurd hr hrs
@@ -107,9 +160,8 @@ theorem checkin_clean_reset (db : DB) (b : Bool) (hrs : db.reset ≠ .none)
     | true =>
       obtain ⟨h1, h2⟩ := hb rfl
       simp only [if_true, Bool.false_eq_true, if_false]
-      refine ⟨?_, hr⟩
-      refine poolClean_snoc hc rfl ?_ _ rfl
-      simp [h1, h2]
+      have hrc := returned_clean db h1 h2 hi
+      refine ⟨poolClean_snoc hc rfl hrc _ rfl, hr, heldIso_clean hrc.2.2.1 hrc.2.2.2.1⟩
     | false =>
       simp only [Bool.false_eq_true, if_false]
       cases hf : db.takeFault .rollback with
@@ -118,12 +170,14 @@ theorem checkin_clean_reset (db : DB) (b : Bool) (hrs : db.reset ≠ .none)
         cases o with
         | some k =>
           simp only [if_true]
-          exact ⟨(hs.trans (kill_shrinks db1)).clean hc, by simp [DB.kill, hs.reset, hr]⟩
+          exact ⟨(hs.trans (kill_shrinks db1)).clean hc, by simp [DB.kill, hs.reset, hr],
+            heldIso_clean rfl rfl⟩
         | none =>
           simp only [Bool.false_eq_true, if_false]
-          refine ⟨?_, by simp [DB.rollback, hs.reset, hr]⟩
-          refine poolClean_snoc (hs.clean hc) rfl ?_ _ rfl
-          simp [DB.rollback]
+          have hi1 : HeldIso db1.rollback := (hs.trans (rollback_shrinks db1)).held hc hi
+          have hrc := returned_clean db1.rollback rfl rfl hi1
+          refine ⟨poolClean_snoc (hs.clean hc) rfl hrc _ rfl, by simp [DB.rollback, hs.reset, hr],
+            heldIso_clean hrc.2.2.1 hrc.2.2.2.1⟩
   | commit =>
     simp only []
     cases hf : db.takeFault .commit with
@@ -132,29 +186,54 @@ theorem checkin_clean_reset (db : DB) (b : Bool) (hrs : db.reset ≠ .none)
       cases o with
       | some k =>
         simp only [if_true]
-        exact ⟨(hs.trans (kill_shrinks db1)).clean hc, by simp [DB.kill, hs.reset, hr]⟩
+        exact ⟨(hs.trans (kill_shrinks db1)).clean hc, by simp [DB.kill, hs.reset, hr],
+          heldIso_clean rfl rfl⟩
       | none =>
         simp only [Bool.false_eq_true, if_false]
-        refine ⟨?_, by simp [DB.commit, hs.reset, hr]⟩
-        refine poolClean_snoc (hs.clean hc) rfl ?_ _ rfl
-        simp [DB.commit]
+        have hi1 : HeldIso db1.commit := (hs.trans (commit_shrinks db1)).held hc hi
+        have hrc := returned_clean db1.commit rfl rfl hi1
+        refine ⟨poolClean_snoc (hs.clean hc) rfl hrc _ rfl, by simp [DB.commit, hs.reset, hr],
+          heldIso_clean hrc.2.2.1 hrc.2.2.2.1⟩
 
 /-- a checkout from a clean pool sees exactly the committed rows, has no savepoints and
     the default isolation level -/
 theorem checkout_held_clean (db : DB) (hc : PoolClean db) :
     db.checkout.raw.working = db.checkout.committed ∧ db.checkout.raw.saves = [] ∧
-    db.checkout.raw.autocommit = false := by
+    db.checkout.raw.autocommit = false ∧ db.checkout.raw.readUnc = false ∧
+    db.checkout.raw.finalize = [] := by
   unfold DB.checkout
   split
   · simp [DB.newRaw, DB.tick]
   · simp [DB.newRaw, DB.tick]
   · rename_i r rest he
-    obtain ⟨h1, h2, h3⟩ := hc r (by rw [he]; exact List.mem_cons_self)
+    obtain ⟨h1, h2, h3, h4, h5⟩ := hc r (by rw [he]; exact List.mem_cons_self)
     simp only []
     split
     · simp [DB.newRaw, DB.tick]
-    · simp [h1, h2, h3]
+    · simp [h1, h2, h3, h4, h5]
 
+/-- `_set_connection_characteristics` keeps pool and reset style, and queues the callback
+    that will undo what it sets -/
+theorem applyChar_shrinks (db : DB) (b : Bool) : Shrinks db (db.applyChar b) := by
+  unfold DB.applyChar
+  refine ⟨by cases b <;> rfl, fun r h => by cases b <;> exact h, ?_⟩
+  intro _ hi
+  cases b with
+  | true => intro _; simp
+  | false =>
+    intro h
+    have := hi h
+    simp only [Bool.false_eq_true, if_false] at this ⊢
+    simp [this]
+
+theorem connectRaw_shrinks (db : DB) : Shrinks db db.connectRaw := by
+  unfold DB.connectRaw
+  have key : ∀ (l : List Bool) (d : DB), Shrinks d (l.foldl DB.applyChar d) := by
+    intro l
+    induction l with
+    | nil => intro d; exact Shrinks.refl d
+    | cons b bs ih => intro d; exact (applyChar_shrinks d b).trans (ih _)
+  exact (checkout_shrinks db).trans (key _ _)
 
 /-! ### preservation through the Connection functions -/
 
@@ -519,16 +598,26 @@ theorem setAutocommit_pres (c : Conn) : Pres c c.setAutocommit.1 := by
   unfold Conn.setAutocommit
   split
   · exact Pres.refl c
-  · refine andThen_pres (connProp_pres c) (fun c1 => ?_)
-    exact pres_db c1 _ ((commit_shrinks c1.db).trans (shrinks_of_eq rfl rfl))
+  · exact andThen_pres (connProp_pres c) (fun c1 => pres_db c1 _ (applyChar_shrinks c1.db true))
 
+theorem setLogToken_pres (c : Conn) : Pres c c.setLogToken.1 := by
+  unfold Conn.setLogToken
+  exact andThen_pres (connProp_pres c) (fun c1 => pres_db c1 _ (applyChar_shrinks c1.db false))
+
+theorem setReadUnc_pres (c : Conn) : Pres c c.setReadUnc.1 := by
+  unfold Conn.setReadUnc
+  split
+  · exact Pres.refl c
+  · refine andThen_pres (connProp_pres c) (fun c1 => pres_db c1 _ ⟨rfl, fun _ h => h, ?_⟩)
+    intro _ _ _
+    simp
 
 /-! ### close(), garbage collection, new checkouts -/
 
-def Inv (c : Conn) : Prop := RootPtr c ∧ PoolClean c.db ∧ c.db.reset ≠ .none
+def Inv (c : Conn) : Prop := RootPtr c ∧ PoolClean c.db ∧ c.db.reset ≠ .none ∧ HeldIso c.db
 
 theorem Pres.inv {c c' : Conn} (h : Pres c c') (hi : Inv c) : Inv c' :=
-  ⟨h.root hi.1, h.db.clean hi.2.1, by rw [h.db.reset]; exact hi.2.2⟩
+  ⟨h.root hi.1, h.db.clean hi.2.1, by rw [h.db.reset]; exact hi.2.2.1, h.db.held hi.2.1 hi.2.2.2⟩
 
 /-- functions that touch neither the database nor the DBAPI connection -/
 structure SameDb (c c' : Conn) : Prop where
@@ -643,14 +732,14 @@ theorem rootClose_heldClean (c : Conn) (t : Nat) (b : Bool) (hact : c.act t = tr
 
 theorem release_inv {c : Conn} (b : Bool) (hi : Inv c) (hb : b = true → c.hasDbapi = true → HeldClean c.db) :
     Inv (c.release b) := by
-  obtain ⟨h1, h2, h3⟩ := hi
+  obtain ⟨h1, h2, h3, h4⟩ := hi
   unfold Conn.release
   cases hh : c.hasDbapi with
-  | false => simp only [Bool.false_eq_true, if_false]; exact ⟨h1, h2, h3⟩
+  | false => simp only [Bool.false_eq_true, if_false]; exact ⟨h1, h2, h3, h4⟩
   | true =>
     simp only [if_true]
-    obtain ⟨k1, k2⟩ := checkin_clean_reset c.db b h3 (fun e => hb e hh) h2
-    exact ⟨h1, k1, by rw [k2]; exact h3⟩
+    obtain ⟨k1, k2, k3⟩ := checkin_clean_reset c.db b h3 (fun e => hb e hh) h2 h4
+    exact ⟨h1, k1, by rw [k2]; exact h3, k3⟩
 
 theorem close_inv {c : Conn} (hi : Inv c) : Inv c.close.1 := by
   unfold Conn.close
@@ -683,50 +772,62 @@ theorem close_inv {c : Conn} (hi : Inv c) : Inv c.close.1 := by
       exact hp.inv hi
 
 theorem gc_inv {c : Conn} (hi : Inv c) : Inv c.gc := by
-  obtain ⟨_, h2, h3⟩ := hi
+  obtain ⟨_, h2, h3, h4⟩ := hi
   unfold Conn.gc
   refine ⟨fun t ht => (by cases ht), ?_⟩
   cases hh : c.hasDbapi with
-  | false => simp only [Bool.false_eq_true, if_false]; exact ⟨h2, h3⟩
+  | false => simp only [Bool.false_eq_true, if_false]; exact ⟨h2, h3, h4⟩
   | true =>
     simp only [if_true]
-    obtain ⟨k1, k2⟩ := checkin_clean_reset c.db false h3 (fun e => by cases e) h2
-    exact ⟨k1, by rw [k2]; exact h3⟩
+    obtain ⟨k1, k2, k3⟩ := checkin_clean_reset c.db false h3 (fun e => by cases e) h2 h4
+    exact ⟨k1, by rw [k2]; exact h3, k3⟩
 
-theorem connect_inv {db : DB} (h2 : PoolClean db) (h3 : db.reset ≠ .none) : Inv (Conn.connect db) :=
-  ⟨fun t ht => (by cases ht), (checkout_shrinks db).clean h2, (by
-    show db.checkout.reset ≠ .none
-    rw [(checkout_shrinks db).reset]; exact h3)⟩
+theorem connect_inv {db : DB} (h2 : PoolClean db) (h3 : db.reset ≠ .none) (h4 : HeldIso db) :
+    Inv (Conn.connect db) :=
+  ⟨fun t ht => (by cases ht), (connectRaw_shrinks db).clean h2, (by
+    show db.connectRaw.reset ≠ .none
+    rw [(connectRaw_shrinks db).reset]; exact h3), (connectRaw_shrinks db).held h2 h4⟩
 
 theorem warmTake_clean : ∀ (n : Nat) (db : DB) (acc : List Raw), PoolClean db → db.reset ≠ .none →
-    PoolClean (DB.warmTake n db acc).1 ∧ (DB.warmTake n db acc).1.reset ≠ .none := by
+    HeldIso db → (∀ r ∈ acc, IsoOk r) →
+    PoolClean (DB.warmTake n db acc).1 ∧ (DB.warmTake n db acc).1.reset ≠ .none ∧
+    (∀ r ∈ (DB.warmTake n db acc).2, IsoOk r) := by
   intro n
   induction n with
-  | zero => intro db acc h2 h3; exact ⟨h2, h3⟩
+  | zero => intro db acc h2 h3 _ h5; exact ⟨h2, h3, h5⟩
   | succ n ih =>
-    intro db acc h2 h3
+    intro db acc h2 h3 h4 h5
     simp only [DB.warmTake]
-    exact ih _ _ ((checkout_shrinks db).clean h2) (by rw [(checkout_shrinks db).reset]; exact h3)
+    have hs := connectRaw_shrinks db
+    refine ih _ _ (hs.clean h2) (by rw [hs.reset]; exact h3) (hs.held h2 h4) ?_
+    intro r hr
+    rcases List.mem_append.1 hr with hr | hr
+    · exact h5 r hr
+    · simp only [List.mem_singleton] at hr
+      subst hr
+      exact hs.held h2 h4
 
 theorem warmReturn_clean : ∀ (l : List Raw) (db : DB), PoolClean db → db.reset ≠ .none →
+    (∀ r ∈ l, IsoOk r) →
     PoolClean (DB.warmReturn l db) ∧ (DB.warmReturn l db).reset ≠ .none := by
   intro l
   induction l with
-  | nil => intro db h2 h3; exact ⟨h2, h3⟩
+  | nil => intro db h2 h3 _; exact ⟨h2, h3⟩
   | cons r rs ih =>
-    intro db h2 h3
+    intro db h2 h3 h5
     simp only [DB.warmReturn]
     have hc : PoolClean ({ db with raw := r } : DB) := h2
-    obtain ⟨k1, k2⟩ := checkin_clean_reset ({ db with raw := r } : DB) false h3 (fun e => by cases e) hc
-    exact ih _ k1 (by rw [k2]; exact h3)
+    obtain ⟨k1, k2, _⟩ := checkin_clean_reset ({ db with raw := r } : DB) false h3 (fun e => by cases e) hc
+      (h5 r List.mem_cons_self)
+    exact ih _ k1 (by rw [k2]; exact h3) (fun x hx => h5 x (List.mem_cons_of_mem _ hx))
 
-theorem warm_clean (n : Nat) (db : DB) (h2 : PoolClean db) (h3 : db.reset ≠ .none) :
-    PoolClean (DB.warm n db) ∧ (DB.warm n db).reset ≠ .none := by
+theorem warm_clean (n : Nat) (db : DB) (h2 : PoolClean db) (h3 : db.reset ≠ .none) (h4 : HeldIso db) :
+    PoolClean (DB.warm n db) ∧ (DB.warm n db).reset ≠ .none ∧ HeldIso (DB.warm n db) := by
   unfold DB.warm
   simp only []
-  obtain ⟨a1, a2⟩ := warmTake_clean n db [] h2 h3
-  obtain ⟨b1, b2⟩ := warmReturn_clean (DB.warmTake n db []).2 (DB.warmTake n db []).1 a1 a2
-  exact ⟨b1, b2⟩
+  obtain ⟨a1, a2, a3⟩ := warmTake_clean n db [] h2 h3 h4 (fun _ h => by cases h)
+  obtain ⟨b1, b2⟩ := warmReturn_clean (DB.warmTake n db []).2 (DB.warmTake n db []).1 a1 a2 a3
+  exact ⟨b1, b2, h4⟩
 
 theorem step_inv {c : Conn} (hi : Inv c) (op : Op) : Inv (c.step op).1 := by
   cases op with
@@ -744,17 +845,21 @@ theorem step_inv {c : Conn} (hi : Inv c) (op : Op) : Inv (c.step op).1 := by
   | exitExc h => exact (exit_pres c h true).inv hi
   | invalidate => exact (invalidate_pres c).inv hi
   | arm p k =>
-    exact ⟨hi.1, hi.2.1, hi.2.2⟩
+    exact ⟨hi.1, hi.2.1, hi.2.2.1, hi.2.2.2⟩
   | disarm =>
-    exact ⟨hi.1, hi.2.1, hi.2.2⟩
+    exact ⟨hi.1, hi.2.1, hi.2.2.1, hi.2.2.2⟩
   | warm n =>
-    obtain ⟨a, b⟩ := warm_clean n c.db hi.2.1 hi.2.2
-    exact ⟨hi.1, a, b⟩
+    obtain ⟨a, b, d⟩ := warm_clean n c.db hi.2.1 hi.2.2.1 hi.2.2.2
+    exact ⟨hi.1, a, b, d⟩
   | connect =>
     have := gc_inv hi
-    exact connect_inv this.2.1 this.2.2
+    exact connect_inv this.2.1 this.2.2.1 this.2.2.2
   | gc => exact gc_inv hi
   | autocommit => exact (setAutocommit_pres c).inv hi
+  | readUnc => exact (setReadUnc_pres c).inv hi
+  | logToken => exact (setLogToken_pres c).inv hi
+  | otherOpt => exact hi
+  | tokenAuto => exact (setAutocommit_pres c).inv hi
 
 theorem run_inv : ∀ (ops : List Op) (c : Conn), Inv c → Inv (c.run ops) := by
   intro ops
